@@ -414,3 +414,38 @@ Proof.
   - apply objs_nodes; [exact Hwf|]. intros c x Hc Hx. unfold all. apply in_concat. exists (map_json cv name v). split; [apply in_map; exact Hv|].
     apply (map_json_objs cv name v (WF v Hv)). exists c. auto.
 Qed.
+
+(* ------------------------------------------------------------------ a JSON string stays a string (fix 9a0cfef) *)
+Lemma json_string_table :
+  forallb (fun q => existsb (str_eqb (if json_string_kept q then dt_qname json_string_fallback else q)) json_string_types)
+          (DT_STRING :: map from_explicit_type (map fst explicit_type_datatype)) = true.
+Proof. vm_compute. reflexivity. Qed.
+
+Lemma first_true_In' {A} (l : list A) row x : first_true l row = Some x -> In x l.
+Proof.
+  revert row. induction l as [|y l IH]; intros [|b row]; cbn; try discriminate.
+  destruct b; [intros [= ->]; left; reflexivity|]. intros H. right. eapply IH. exact H.
+Qed.
+
+Lemma json_str_type_ok cv c r : sc_row cv (c :: r) <> None ->
+  existsb (str_eqb (json_str_type cv (c :: r))) json_string_types = true.
+Proof.
+  intros Hrow. unfold json_str_type, build_attr_type_json.
+  assert (E : str_eqb [] qn_xsi_type = false) by (vm_compute; reflexivity). rewrite E. cbn [ty_qname].
+  pose proof json_string_table as T. rewrite forallb_forall in T. apply T.
+  unfold match_type_str. destruct (sc_row cv (c :: r)) as [row|]; [|congruence].
+  destruct (first_true (map fst explicit_type_datatype) row) as [tp|] eqn:F.
+  - right. apply in_map. eapply first_true_In'. exact F.
+  - left. reflexivity.
+Qed.
+
+Theorem json_strings_kept : forall cv v, json_rows_known cv v = true -> g_json_strings cv v = true.
+Proof.
+  intros cv. induction v as [|b|z|f|s|l IHl|fs IHf] using json_ind'; intros H; try reflexivity.
+  - destruct s as [|c r]; [reflexivity|]. cbn [g_json_strings]. apply json_str_type_ok. cbn [json_rows_known] in H.
+    destruct (sc_row cv (c :: r)); [discriminate|discriminate].
+  - cbn [g_json_strings json_rows_known] in *. induction l as [|x r IH]; [reflexivity|]. inversion IHl as [|? ? Hx Hr]; subst.
+    apply andb_true_iff in H as [Ha Hb]. rewrite (Hx Ha). cbn. apply IH; assumption.
+  - cbn [g_json_strings json_rows_known] in *. induction fs as [|[k x] r IH]; [reflexivity|]. inversion IHf as [|? ? Hx Hr]; subst. cbn [snd] in *.
+    apply andb_true_iff in H as [Ha Hb]. rewrite (Hx Ha). cbn. apply IH; assumption.
+Qed.
